@@ -368,6 +368,7 @@ DEFAULT_PROFILE: dict[str, Any] = {
     "mutex_p": 0.0,
     "choice_p": 0.0,
     "reducers_p": 0.0,
+    "fwd_jump_p": 0.0,        # share of jumps that go forward (to a descendant) instead of back
     "once_p": 0.0,            # an ok-task that produces its outputs in the first loop iteration only
     "max_jumps": [None, None, 1, 3],
     "confluent_only": False,
@@ -487,6 +488,9 @@ def gen_program(ch: Choices, profile: dict[str, Any] | None = None) -> Program:
         src = stages[ch.pick("jsrc", len(stages))]
         prog = Program(spec)
         cand = sorted(prog.ancestors(src["ref"])) + [src["ref"]]
+        fwd = sorted(prog.descendants(src["ref"]))
+        if p.get("fwd_jump_p", 0.0) > 0 and fwd and ch.flip("jfwd", p["fwd_jump_p"]):
+            cand = fwd          # forward jump: the source is force-completed, bypassed stages are skipped
         target = cand[ch.pick("jtgt", len(cand))]
         n = ch.pick("jn", 3)
         ti = ch.pick("jtask", len(src["tasks"]))
